@@ -126,8 +126,8 @@ def must_fail_oracle(cid, data, impl, model):
     return None
 
 
-def run_both(files, profile="release", verbose=False):
-    lines = vlib.load_lines(files, verbose)
+def run_both(files, profile="release", verbose=False, outcome_only=False):
+    lines = vlib.load_lines(files, verbose, outcome_only)
     m, _ = vlib.run_model(lines, profile)
     i, _ = vlib.run_impl(lines, profile)
     return m, i
@@ -199,7 +199,7 @@ def malformed_routine(oracle, prefixes, rule, load_only):
         rng = random.Random(ctx.seed * 104729 + scale)
         files = malformed_inputs(ctx, scale, rng)
         for profile in ("release", "relchk"):
-            m, i = run_both(files, profile)
+            m, i = run_both(files, profile, outcome_only=load_only)
             sub = Result()
             compare_cases(sub, files, m, i, prefixes, oracle, what=f"malformed stream [{profile}]",
                           load_only=load_only)
@@ -446,3 +446,398 @@ def c03_run(ctx, scale):
 
 
 register("C03", c03_run, profiles=("release", "relchk"))
+
+
+# ------------------------------------------------------------------------------------------
+# C15: switch one unsupported feature on at every position where it can occur
+
+def feature_mutants(cid, b):
+    out = []
+    def add(tag, off, width, val):
+        out.append((f"feat/{tag}/{cid}@{off}={val}", vlib.mutate(b, off, width, val)))
+    for pw, ph in ((2, 1), (1, 2), (3, 3), (255, 255), (2, 2)):
+        m = bytearray(b); m[34] = pw; m[35] = ph
+        out.append((f"feat/ratio/{cid}={pw}:{ph}", bytes(m)))
+    for d in (0, 1, 7, 9, 15, 24, 31, 33, 64, 65535):
+        add("depth", 12, 2, d)
+    for kind, off, ln in vlib.walk_chunks(b):
+        if not kind.startswith("chunk:"):
+            continue
+        ty = int(kind[6:], 16)
+        p = off + 6
+        if ty == 0x2007:
+            for v in (2, 3, 65535):
+                add("profile-type", p, 2, v)
+            flags = struct.unpack_from("<H", b, p + 2)[0]
+            add("profile-gamma", p + 2, 2, flags | 1)
+        elif ty == 0x2004:
+            for v in (3, 4, 255, 65535):
+                add("layer-type", p + 2, 2, v)
+            for v in (19, 20, 255, 65535):
+                add("blend", p + 10, 2, v)
+        elif ty == 0x2005:
+            ctype = struct.unpack_from("<H", b, p + 7)[0]
+            for v in (4, 5, 255, 65535):
+                add("cel-type", p + 7, 2, v)
+            if ctype == 3:
+                for v in (0, 8, 16, 31, 33, 64):
+                    add("bits-per-tile", p + 20, 2, v)
+        elif ty == 0x2018:
+            n = struct.unpack_from("<H", b, p)[0]
+            q = p + 10
+            for _ in range(n):
+                for v in (3, 4, 255):
+                    add("anim-dir", q + 4, 1, v)
+                ln_name = struct.unpack_from("<H", b, q + 17)[0]
+                q += 19 + ln_name
+        elif ty == 0x2023:
+            flags = struct.unpack_from("<I", b, p + 4)[0]
+            add("tileset-not-embedded", p + 4, 4, flags & ~2)
+        for v in (0x2021, 0x2024, 0x0005, 0x9999, 0):
+            add("chunk-type", off + 4, 2, v)
+    return out
+
+
+def c15_run(ctx, scale):
+    res = Result("every documented-unsupported feature switched on, one at a time, at every position where it can "
+                 "occur in corpus and generated files (pixel ratio, colour depth, profile type / gamma flag, layer type, "
+                 "blend mode, cel type, bits per tile, animation direction, tileset without embedded pixels, unknown "
+                 "chunk type); oracle: the load returns an error value; distinct = distinct mutated inputs")
+    base = [(c, b) for c, b in vlib.corpus_files(max_size=9000) if c != "color-curve.aseprite"]
+    for prof, n in (("struct", 25), ("tiles", 15)):
+        fs, _ = vlib.gen_cases(prof, ctx.seed * 19 + scale, (n if ctx.quick else n * 20) * scale)
+        base += fs
+    files = []
+    for cid, b in base:
+        files += feature_mutants(cid, b)
+    # the tileset that "survives per id": a later tileset chunk with the same id replaces it, so a
+    # not-embedded tileset that is replaced is legitimately accepted -> our generator uses unique ids
+    m, i = run_both(files, outcome_only=True)
+    compare_cases(res, files, m, i, [], must_fail_oracle, what="feature switch", load_only=True)
+    for cid, data in files:
+        res._distinct.add(hash(data))
+    kinds = {}
+    for cid, _ in files:
+        k = cid.split("/")[1]
+        kinds[k] = kinds.get(k, 0) + 1
+    res.distribution.update({"feature:" + k: v for k, v in kinds.items()})
+    return res
+
+
+register("C15", c15_run)
+
+
+# ------------------------------------------------------------------------------------------
+# C11: palettes
+
+def c11_extra(ctx, scale, res, files, model_obs, impl_obs):
+    """indexed pixel buffers with an index outside the palette, and indexed sprites whose
+    palette chunk is removed: both must fail to load"""
+    gen, _ = vlib.gen_cases("indexedplain", ctx.seed * 23 + scale, (60 if ctx.quick else 1500) * scale)
+    bad = []
+    for cid, b in gen:
+        pal_off = None
+        for kind, off, ln in vlib.walk_chunks(b):
+            if kind == "chunk:2019":
+                pal_off = off
+            if kind == "chunk:2005":
+                p = off + 6
+                ctype = struct.unpack_from("<H", b, p + 7)[0]
+                if ctype == 0:
+                    w, h = struct.unpack_from("<HH", b, p + 16)
+                    n = w * h
+                    for k in sorted(set([0, n // 2, n - 1])):
+                        bad.append((f"badindex/{cid}@{p + 20 + k}", vlib.mutate(b, p + 20 + k, 1, 255)))
+        has_pixels = any(k in ("chunk:2005", "chunk:2023") for k, _, _ in vlib.walk_chunks(b))
+        if pal_off is not None and has_pixels:
+            bad.append((f"nopalette/{cid}", vlib.mutate(b, pal_off + 4, 2, 0x2006)))
+    if bad:
+        m, i = run_both(bad)
+        def orc(cid, data, impl, model):
+            # a cel-less sprite without palette may legitimately load
+            if cid.startswith("nopalette/") and vlib.outcome(model) == "ok":
+                return None
+            return must_fail_oracle(cid, data, impl, model)
+        compare_cases(res, bad, m, i, [], orc, what="indexed pixels vs palette", load_only=True)
+        res.distribution["bad-index cases"] = sum(1 for c, _ in bad if c.startswith("badindex"))
+        res.distribution["no-palette cases"] = sum(1 for c, _ in bad if c.startswith("nopalette"))
+
+
+register("C11", wf_routine(["palette", "pal", "format"], [("indexed", 150, 4000), ("struct", 150, 4000)],
+         "generated palettes (new-format with first index > 0, names, alpha < 255; legacy 0x0004/0x0011 with "
+         "multi-packet skips and count byte 0; both chunk orders); indexed buffers with one index outside the "
+         "palette at first/middle/last position; indexed sprites with the palette chunk removed",
+         extra=c11_extra))
+
+
+# ------------------------------------------------------------------------------------------
+# C18: utilities
+
+def pal_file(first, entries):
+    """minimal RGBA sprite holding a new-format palette chunk with the given (r,g,b,a) entries"""
+    hdr = struct.pack("<IHHHHHIHIIBBHHBBhhHH", 0, 0xA5E0, 1, 1, 1, 32, 1, 100, 0, 0, 0, 0, 0, 0, 1, 1, 0, 0, 16, 16)
+    hdr += bytes(128 - len(hdr))
+    p = struct.pack("<III", len(entries), first, first + len(entries) - 1) + bytes(8)
+    for (r, g, b, a) in entries:
+        p += struct.pack("<HBBBB", 0, r, g, b, a)
+    ch = struct.pack("<IH", 6 + len(p), 0x2019) + p
+    fr = struct.pack("<IHHHHI", 16 + len(ch), 0xF1FA, 1, 100, 0, 1) + ch
+    return hdr + fr
+
+
+def c18_run(ctx, scale):
+    res = Result("extrude_border on random images 1x1..9x7 (compared with the model and with the clamp law); "
+                 "PaletteMapper / to_indexed_image on palettes with duplicate colours and ids >= 256, all option "
+                 "combinations, queries = palette colours, random colours, alpha != 255 (compared with the law: any "
+                 "palette index of that RGB is acceptable because the map's iteration order is unspecified; the model "
+                 "is run with both extreme orders); distinct = distinct requests")
+    rng = random.Random(ctx.seed * 31337 + scale)
+    n = (150 if ctx.quick else 4000) * scale
+    reqs, meta = [], {}
+    for k in range(n):
+        w, h = rng.randrange(1, 10), rng.randrange(1, 8)
+        px = bytes(rng.randrange(256) for _ in range(4 * w * h))
+        cid = f"ex{k}"
+        reqs.append(f"UTIL {cid} extrude {w} {h} {px.hex()}")
+        meta[cid] = ("extrude", w, h, px)
+    colours = [(rng.randrange(256), rng.randrange(256), rng.randrange(256)) for _ in range(6)]
+    mreqs_model = []
+    for k in range(n):
+        first = rng.choice([0, 0, 1, 250, 254])
+        cnt = rng.randrange(1, 12)
+        entries = [rng.choice(colours) + (rng.choice([0, 128, 255]),) for _ in range(cnt)]
+        f = pal_file(first, entries)
+        failure = rng.randrange(256)
+        transp = rng.choice(["-", str(rng.randrange(256))])
+        qs = [c + (255,) for c in colours] + [c + (rng.randrange(255),) for c in colours[:2]] + \
+             [(rng.randrange(256), rng.randrange(256), rng.randrange(256), 255) for _ in range(3)]
+        qb = bytes(x for q in qs for x in q)
+        cid = f"map{k}"
+        reqs.append(f"UTIL {cid} mapper {f.hex()} {failure} {transp} {qb.hex()}")
+        mreqs_model.append(f"UTIL {cid}:fwd mapper {f.hex()} {failure} {transp} fwd {qb.hex()}")
+        mreqs_model.append(f"UTIL {cid}:rev mapper {f.hex()} {failure} {transp} rev {qb.hex()}")
+        meta[cid] = ("mapper", first, entries, failure, transp, qs)
+        # indexed image made of the same queries
+        w, h = 4, 3
+        img = (qb * 2)[: 4 * w * h]
+        cid2 = f"idx{k}"
+        reqs.append(f"UTIL {cid2} indexed {f.hex()} {failure} {transp} {w} {h} {img.hex()}")
+        mreqs_model.append(f"UTIL {cid2}:fwd indexed {f.hex()} {failure} {transp} fwd {w} {h} {img.hex()}")
+        meta[cid2] = ("indexed", first, entries, failure, transp, [tuple(img[4 * j:4 * j + 4]) for j in range(w * h)], w, h)
+    impl, _ = vlib.run_impl(reqs)
+    model_reqs = [r for r in reqs if " extrude " in r] + mreqs_model
+    model, _ = vlib.run_model(model_reqs)
+
+    def allowed(first, entries, failure, transp, q):
+        r, g, b, a = q
+        if a != 255:
+            return {failure if transp == "-" else int(transp)}
+        ids = [first + j for j, e in enumerate(entries) if e[:3] == (r, g, b)]
+        if not ids:
+            return {failure}
+        return {(i if i < 256 else failure) for i in ids}
+
+    for cid, mt in meta.items():
+        res.evaluations += 1
+        res.compared += 1
+        res._distinct.add(hash(str(mt)))
+        il = impl.get(cid, ["missing"])
+        line = il[0] if il else "missing"
+        fail = None
+        if mt[0] == "extrude":
+            _, w, h, px = mt
+            ml = model.get(cid, ["missing"])[0]
+            if ml != line:
+                res.corr_diffs.append({"correspondence": "Ase.Util.extrudeBorder <-> util::extrude_border",
+                                       "id": cid, "request": [w, h, px.hex()], "model": ml[:300], "impl": line[:300]})
+            parts = line.split(":")
+            if not line.startswith(f"extrude {w + 2}x{h + 2}:") or len(parts) < 4:
+                fail = "wrong dimensions or failure: " + line[:80]
+            else:
+                out = bytes.fromhex(parts[3])
+                for y in range(h + 2):
+                    for x in range(w + 2):
+                        sx, sy = min(max(x - 1, 0), w - 1), min(max(y - 1, 0), h - 1)
+                        if out[4 * (y * (w + 2) + x):][:4] != px[4 * (sy * w + sx):][:4]:
+                            fail = f"pixel ({x},{y}) is not input pixel ({sx},{sy})"
+            if len(res.samples) < 2:
+                res.samples.append({"request": f"extrude {w}x{h}", "result": line[:60]})
+        elif mt[0] == "mapper":
+            _, first, entries, failure, transp, qs = mt
+            if not line.startswith("mapper "):
+                fail = "mapper failed: " + line[:80]
+            else:
+                got = [int(x) for x in line[7:].split(",")]
+                for q, v in zip(qs, got):
+                    if v not in allowed(first, entries, failure, transp, q):
+                        fail = f"lookup{q} = {v}, allowed {sorted(allowed(first, entries, failure, transp, q))}"
+                for sfx in (":fwd", ":rev"):
+                    ml = model.get(cid + sfx, ["missing"])[0]
+                    mg = [int(x) for x in ml[7:].split(",")] if ml.startswith("mapper ") else None
+                    if mg is None or any(v not in allowed(first, entries, failure, transp, q) for q, v in zip(qs, mg)):
+                        raise vlib.Broken("the model of PaletteMapper violates the law: " + ml[:200])
+            if len(res.samples) < 4:
+                res.samples.append({"request": f"mapper first={first} entries={entries[:3]}…", "result": line[:60]})
+        else:
+            _, first, entries, failure, transp, qs, w, h = mt
+            if not line.startswith(f"indexed {w}x{h} "):
+                fail = "to_indexed_image: wrong dimensions or failure: " + line[:80]
+            else:
+                data = bytes.fromhex(line.split(" ")[2])
+                if len(data) != w * h:
+                    fail = f"{len(data)} indices for {w * h} pixels"
+                else:
+                    for q, v in zip(qs, data):
+                        if v not in allowed(first, entries, failure, transp, q):
+                            fail = f"pixel {q} -> {v}, allowed {sorted(allowed(first, entries, failure, transp, q))}"
+        if fail:
+            res.oracle_failures.append({"id": cid, "what": fail, "request": [str(x)[:400] for x in mt],
+                                        "impl": line[:400], "call": "asefile::util"})
+    res.sections = ["extrude", "mapper", "indexed"]
+    return res
+
+
+register("C18", c18_run)
+
+
+# ------------------------------------------------------------------------------------------
+# C13: truncation;  C14: reader schedules
+
+def end_of_last_frame(b):
+    for kind, off, ln in vlib.walk_chunks(b):
+        if kind == "end":
+            return off
+    return None
+
+
+def small_wf_files(ctx, scale, n_gen):
+    files = [(c, b) for c, b in vlib.corpus_files(max_size=2600) if c != "color-curve.aseprite"]
+    gen, _ = vlib.gen_cases("struct", ctx.seed * 29 + scale, n_gen)
+    gen2, _ = vlib.gen_cases("tiles", ctx.seed * 37 + scale, max(1, n_gen // 3))
+    return files + gen + gen2
+
+
+def c13_run(ctx, scale):
+    res = Result("every cut offset (thorough) / a seeded sample of cut offsets plus all offsets of the file header and "
+                 "of each frame and chunk header (quick) of corpus and generated files; oracle: a prefix that ends before "
+                 "the end of the last frame does not load; distinct = distinct (file, cut) pairs")
+    rng = random.Random(ctx.seed * 271 + scale)
+    base = small_wf_files(ctx, scale, (30 if ctx.quick else 400) * scale)
+    files = []
+    for cid, b in base:
+        end = end_of_last_frame(b)
+        if end is None or end > len(b):
+            continue
+        if ctx.quick:
+            cuts = set(range(0, min(end, 160)))
+            for kind, off, ln in vlib.walk_chunks(b):
+                cuts.update(range(max(0, off - 1), min(end, off + 8)))
+            cuts.update(rng.randrange(end) for _ in range(40))
+            cuts.update([end - 1, end - 2])
+        else:
+            cuts = set(range(end))
+        for k in sorted(c for c in cuts if 0 <= c < end):
+            files.append((f"cut/{cid}@{k}", b[:k]))
+        # the complete file and the file cut exactly at the end of the last frame do load
+        files.append((f"whole/{cid}", b[:end]))
+    m, i = run_both(files, outcome_only=True)
+    def orc(cid, data, impl, model):
+        if cid.startswith("whole/"):
+            return None if vlib.outcome(impl) == "ok" else "the untruncated file does not load: " + vlib.outcome_detail(impl)
+        if vlib.outcome(impl) != "err":
+            return "a truncated file did not fail to load: " + vlib.outcome_detail(impl)
+        return None
+    compare_cases(res, files, m, i, [], orc, what="truncated prefix", load_only=True)
+    for cid, data in files:
+        res._distinct.add(hash(cid))
+    res.distribution["files"] = len(base)
+    res.distribution["cuts"] = len(files) - len(base)
+    return res
+
+
+register("C13", c13_run)
+
+
+def c14_run(ctx, scale):
+    res = Result("corpus and generated files loaded through instrumented Read implementations: 1-byte reads, random "
+                 "partitions, Interrupted before every call, a hard error of each kind injected at byte offsets "
+                 "(every offset in thorough), BufReader capacities and read_file; oracle: without a hard error the "
+                 "observation equals that of the plain bytes; with a hard error before the end of the last frame the "
+                 "result is the IoError variant carrying that kind (checked through Error::source); "
+                 "distinct = distinct (file, schedule) pairs")
+    rng = random.Random(ctx.seed * 613 + scale)
+    base = small_wf_files(ctx, scale, (12 if ctx.quick else 150) * scale)
+    base = [(c, b) for c, b in base if len(b) <= 2600]
+    reqs = []
+    meta = {}
+    kinds = [3, 4, 5, 6, 0, 1, 7]     # Other, BrokenPipe, TimedOut, PermissionDenied, UnexpectedEof, InvalidInput, ConnectionReset
+    for cid, b in base:
+        hx = b.hex()
+        end = end_of_last_frame(b) or len(b)
+        def add(tag, ev, expect):
+            rid = f"{cid}|{tag}"
+            reqs.append(f"SCHED {rid} {hx} {ev}")
+            meta[rid] = (cid, expect)
+        add("plain", "-", "same")
+        add("bytewise", ",".join(["d1"] * len(b)), "same")
+        for r in range(2 if ctx.quick else 6):
+            parts = []
+            while len(parts) < 4000 and sum(p for p in parts) < len(b):
+                parts.append(rng.choice([1, 1, 2, 3, 4, 7, 8, 16, 100]))
+            add(f"rand{r}", ",".join(f"d{p}" for p in parts), "same")
+        add("interrupted", ",".join(["i,d3"] * (len(b) // 3 + 2)), "same")
+        add("interrupted2", ",".join(["i,i,d1000"] * 40), "same")
+        for cap in ([1, 2, 7, 64] if ctx.quick else [1, 2, 3, 5, 7, 8, 16, 31, 64]):
+            add(f"bufreader{cap}", f"bufreader:{cap}", "same")
+        add("file", "file", "same")
+        step = max(1, end // (25 if ctx.quick else end))
+        for k in list(range(0, end, step)) + [end - 1]:
+            code = kinds[(k // step) % len(kinds)]
+            ev = ",".join(["d1"] * k + [f"f{code}"])
+            add(f"fail{code}@{k}", ev, f"io:{'UnexpectedEof' if code == 0 else code}")
+        # a hard error after everything needed was delivered must not matter
+        add("fail-after-end", ",".join(["d1"] * len(b) + ["f3"]) if end == len(b) else
+            ",".join(["d1"] * end + ["d1000000", "f3"]), "same-or-io")
+    m, _ = vlib.run_model(reqs)
+    i, _ = vlib.run_impl(reqs)
+    res.sections = ALL
+    plain = {}
+    for rid, (cid, expect) in meta.items():
+        if rid.endswith("|plain"):
+            plain[cid] = i.get(rid)
+    for rid, (cid, expect) in meta.items():
+        res.evaluations += 1
+        res.compared += 1
+        res._distinct.add(hash(rid))
+        il, ml = i.get(rid), m.get(rid)
+        if il is None or ml is None:
+            raise vlib.Broken("no observation for " + rid)
+        data_hex = dict(base)[cid].hex()
+        fail = None
+        if expect == "same":
+            if il != plain[cid]:
+                d = vlib.first_diff(plain[cid], il)
+                fail = f"result depends on the reader ({rid.split('|')[1][:40]}): {d}"
+        elif expect.startswith("io:"):
+            want = "load err " + expect
+            if not il or il[0] != want:
+                fail = f"hard I/O error not returned as IoError of that kind: expected '{want}', got '{il[0] if il else None}'"
+        elif expect == "same-or-io":
+            if il != plain[cid] and not (il and il[0].startswith("load err io:")):
+                fail = "unexpected result with an error event after the needed data: " + (il[0] if il else "none")
+        if fail:
+            res.oracle_failures.append({"id": rid, "what": fail[:600], "input_hex": data_hex,
+                                        "schedule": rid.split("|")[1], "call": "AsepriteFile::read(custom Read)"})
+        elif il != ml:
+            d = vlib.first_diff(ml, il)
+            res.corr_diffs.append({"correspondence": "Ase.parseStream <-> AsepriteFile::read over a scheduled reader",
+                                   "id": rid, "input_hex": data_hex,
+                                   "first_difference": {"line": d[0], "model": d[1][:300], "impl": d[2][:300]}})
+        if len(res.samples) < 5 and ("fail" in rid or "rand" in rid):
+            res.samples.append({"id": rid[:80], "outcome": il[0] if il else None})
+    res.distribution["files"] = len(base)
+    res.distribution["schedules"] = len(reqs)
+    return res
+
+
+register("C14", c14_run)
